@@ -75,7 +75,7 @@ fn configs(n_docs: usize) -> Vec<Config> {
 fn script_json(s: &Script) -> Value {
     json!({
         "chunks": s.chunks,
-        "fail_at": s.fail_at.as_ref().map(|(p, k)| json!([p, if *k == FailKind::Error {"error"} else {"zero"}])),
+        "fail_at": s.fail_at.as_ref().map(|(p, k)| json!([p, match k { FailKind::Error => "error".to_string(), FailKind::Zero => "zero".to_string(), FailKind::Kind(i) => format!("kind{}", i) }])),
         "interrupt_calls": s.interrupt_calls,
         "fail_once": s.fail_once,
     })
@@ -85,7 +85,7 @@ fn script_from_json(v: &Value) -> Script {
     Script {
         chunks: v["chunks"].as_array().map(|a| a.iter().map(|x| x.as_u64().unwrap() as usize).collect()).unwrap_or_default(),
         fail_at: v["fail_at"].as_array().map(|a| {
-            (a[0].as_u64().unwrap() as usize, if a[1].as_str() == Some("zero") { FailKind::Zero } else { FailKind::Error })
+            (a[0].as_u64().unwrap() as usize, match a[1].as_str() { Some("zero") => FailKind::Zero, Some(x) if x.starts_with("kind") => FailKind::Kind(x[4..].parse().unwrap_or(0)), _ => FailKind::Error })
         }),
         interrupt_calls: v["interrupt_calls"].as_array().map(|a| a.iter().map(|x| x.as_u64().unwrap() as usize).collect()).unwrap_or_default(),
         fail_once: v["fail_once"].as_bool().unwrap_or(false),
@@ -199,7 +199,7 @@ fn main() {
     }
     run.rule(
         "for each (document x xref format x plain|incremental) configuration: every byte offset p of the healthy output as failure \
-         point x {persistent hard error, persistent Ok(0), hard error that occurs once and then clears}; every write-call index as a single Interrupted and as the start of a burst of k consecutive Interrupted results (k in {2, 17, 100}; ten lengths up to 1000 in thorough), 19 Interrupted results before every single-byte write; chunkings of 1..8 bytes per call and the cyclic \
+         point x {persistent hard error, persistent Ok(0), hard error that occurs once and then clears, each of 12 further io::ErrorKind values once-and-clearing (and persistent: a quarter of the offsets per kind in quick, all in thorough)}; every write-call index as a single Interrupted and as the start of a burst of k consecutive Interrupted results (k in {2, 17, 100}; ten lengths up to 1000 in thorough), 19 Interrupted results before every single-byte write; chunkings of 1..8 bytes per call and the cyclic \
          pattern 1,2,3; chunking x failure point combinations; save(path) of every configuration against the save_to bytes; non-trivial = failure strictly inside the output or a chunked/interrupted run; \
          scripts are distinct by construction",
     );
@@ -254,6 +254,15 @@ fn main() {
         for p in 0..n {
             // transient hard failure: the sink fails once at p and then accepts writes again
             scripts.push(Script { fail_at: Some((p, FailKind::Error)), fail_once: true, ..Default::default() });
+        }
+        // every io::ErrorKind of the menu at every offset, persistent and as a one-off (the sink recovers)
+        for p in 0..n {
+            for k in 0..vharness::sink::ERROR_KINDS.len() {
+                scripts.push(Script { fail_at: Some((p, FailKind::Kind(k))), fail_once: true, ..Default::default() });
+                if run.thorough || p % 4 == k % 4 {
+                    scripts.push(Script { fail_at: Some((p, FailKind::Kind(k))), ..Default::default() });
+                }
+            }
         }
         let fail_scripts = scripts.len();
         for i in 0..calls {
